@@ -37,8 +37,9 @@ theorem generated_formulas_match_model (Q : ℝ → ℝ) (M k L : Nat) (s ber K 
     simp only [Generated.C16.pskSER, Generated.C16.pskBER, Generated.C16.bpskSER, Generated.C16.bpskBER,
       Generated.C16.qamPsc, Generated.C16.qamSER, Generated.C16.qamBER, Generated.C16.per,
       Generated.C16.spectralEff, Generated.C16.dB2Linear, pskSER, pskBER, pskArg, bpskSER, bpskArg,
-      qamSER, qamBER, qamPsc, qamCoef, qamArg, per, spectralEff, db2lin] <;>
-    try ring
+      qamSER, qamBER, qamPsc, qamCoef, qamArg, per, spectralEff, db2lin, Trig.sqrt,
+      Real.sqrt_mul (Nat.cast_nonneg 2 : (0 : ℝ) ≤ ((2 : Nat) : ℝ))] <;>
+    try ring_nf
 
 /-! ### PSK -/
 
